@@ -118,7 +118,7 @@ fn float_ctor(acc: &mut Acc, idx: u64, len: usize, w: usize, h: usize) {
 pub fn run(tier: Tier) -> Report {
     let mut rep = Report::new("C12");
     // (1) small box, full product
-    let sb = small_box(tier.pick(4, 6));
+    let sb = small_box(tier.pick(5, 7));
     let acc = par_chunks(sb.len() as u64, 256, |acc, lo, hi| {
         for i in lo..hi {
             check_spec(acc, i, &sb[i as usize], "small box");
@@ -212,7 +212,7 @@ pub fn run(tier: Tier) -> Report {
     }
     rep.bound = format!(
         "(1) full product of luma w,h in 1..={} x common chroma size 0..=w+1 x 0..=h+1 x chroma decimation 0..=2^2 x config subsampling 0..=2^2 x u8/u16 x padding {{0,1,17}} = {} frames; (2) every well-formed base with luma sizes in {:?}, valid subsampling, (u8,8)/(u16,10)/(u16,16), padding {{0,1,17}} ({} bases) with every single deviation and (sizes <= 12) every pair of deviations (chroma size, decimation, config subsampling, luma size, per-plane padding, from_slice construction, one out-of-range sample); (3) one out-of-range sample (2^n, 2^n+1, 65535) at EVERY raw buffer position (visible and padding) of every plane for {} geometries x depths 8..15; (4) all (len,w,h) in 0..=40 cubed for the four float constructors, all 19x14 label pairs for Rgb::new",
-        tier.pick(4, 6), sb.len(), dev_sizes(tier == Tier::Thorough), bs.len(), sweeps.len()
+        tier.pick(5, 7), sb.len(), dev_sizes(tier == Tier::Thorough), bs.len(), sweeps.len()
     );
     rep.rule = "Yuv::new verdict vs the reference predicate transcribed from the statement (accept <=> predicate; on reject the variant must name a violated condition; padding samples never matter; accepted images are verbatim); float constructors: Ok <=> len == w*h else ResolutionMismatch, data verbatim".into();
     rep.assumptions = vec!["planes are built through Plane::new / Plane::from_slice (+ public decimation fields), not by corrupting PlaneConfig's stride/size fields".into()];
